@@ -178,6 +178,7 @@ struct XferRun : SdoEnv {
         uint8_t cmd = f.d[0]; uint16_t idx = f.u16(1); uint8_t sub = f.d[3]; uint8_t ccs = cmd >> 5;
         std::vector<uint8_t> img = w.image(0);
         SdoObj m; bool exists = metaOf(idx, sub, m); std::vector<uint8_t> viewBefore = exists ? sdo_view(w, 0, m) : std::vector<uint8_t>();
+        uint32_t hbBefore[4] = {0, 0, 0, 0}; bool hbc = plan.c("hbcons", 0) != 0; if (hbc) for (int q = 1; q <= 3; q++) hbBefore[q] = w.raw(0, 0x1016, (uint8_t)q);
         std::vector<Frame> resp = exchange(srv, f, 1);
         if (lp) lp->active = false;
         std::string ctx = " [state " + std::to_string(st) + " request " + f.str() + "]";
@@ -241,6 +242,14 @@ struct XferRun : SdoEnv {
                 if (m.kind == 3) { if (exped) abortWith(0x06060000u + (uint32_t)plan.c("usercode", 0x10), "type-code"); return; }
                 if (m.kind == 5) { uint32_t e = w.ospec(0, idx, sub)->val; if (exped) abortWith(e == CO_ERR_OBJ_RANGE ? 0x06090030u : e == CO_ERR_OBJ_MAP_TYPE ? 0x06040041u : e == CO_ERR_OBJ_MAP_LEN ? 0x06040042u : 0x06040043u, "type-reject-code"); return; }
                 if (m.kind == 2) { abortWith(0, "string-write"); return; }
+                if (hbc && idx == 0x1016 && sub >= 1 && sub <= 3 && cmd == 0x23) {   // heartbeat consumer entry: refused with 0604 0043h exactly when an entry monitors that node already (judged by the stored values)
+                    uint32_t val = f.u32(4); uint8_t node = (uint8_t)(val >> 16); uint16_t time = (uint16_t)val; bool dup = false; for (int q = 1; q <= 3; q++) if ((hbBefore[q] & 0xFFFF) != 0 && (uint8_t)(hbBefore[q] >> 16) == node) dup = true;   /* the written entry itself counts (C11: 'a node that is already being monitored') */
+                    if ((val >> 24) != 0 || node < 1 || node > 127) { cov.hit("hbcons-write-out-of-range"); return; }
+                    if (time != 0 && dup) { abortWith(0x06040043, "hbcons-duplicate"); return; }
+                    if (isAbort(resp[0])) { fail("req/valid-refused", "heartbeat consumer write refused with " + hex8(resp[0].u32(4)) + " although no entry monitors node " + std::to_string(node) + ctx); return; }
+                    for (int q = 1; q <= 3; q++) if (w.raw(0, 0x1016, (uint8_t)q) != (q == sub ? (val & 0x7FFFFFu) : hbBefore[q])) { fail("req/download-confirmed-not-performed", "1016h:" + std::to_string(q) + " holds " + hex8(w.raw(0, 0x1016, (uint8_t)q)) + " after the confirmed write" + ctx); return; }
+                    cov.hit("verdict-hbcons-accepted"); nontrivial = true; return;
+                }
                 if (isAbort(resp[0]) && plan.c("poolfull", 0) && idx == 0x1017) { cov.hit("heartbeat-time-refused-with-full-timer-pool"); return; }   // no slot for the producer: refusing is legitimate (and changed nothing, see above)
                 if (isAbort(resp[0])) { fail("req/valid-refused", "valid download initiate refused with " + hex8(resp[0].u32(4)) + ctx); return; }
                 if (resp[0].d[0] != 0x60) { fail("req/dn-init-cmd", resp[0].str() + ctx); return; }
@@ -375,6 +384,7 @@ static Frame gen_request(Rng &r, const SdoDict &d) {
 }
 static Plan gen_req(Rng &r, bool thorough) {
     Plan p; gen_cfg(r, p); p.cfg["usercode"] = r.range(1, 0xFF); p.cfg["poolfull"] = r.chance(1, 6);
+    bool hbc = !p.cfg["poolfull"] && r.chance(1, 5); p.cfg["hbcons"] = hbc; if (hbc) for (int k = 1; k <= 3; k++) p.cfg["hbc" + std::to_string(k)] = r.chance(1, 2) ? 0 : (int64_t)((4 + k) << 16 | r.pick<int>({50, 100}));
     SdoDict d; d.build(p, 1);
     int rounds = (int)r.range(1, thorough ? 10 : 6);
     for (int i = 0; i < rounds; i++) {
@@ -382,6 +392,7 @@ static Plan gen_req(Rng &r, bool thorough) {
         if (r.chance(1, 2)) { Op b = gen_begin(r, 0, r.chance(1, 2), thorough); b.a[1] = srv; b.a[5] = 0; if (r.chance(2, 3)) b.a[2] = r.range(14, 16); b.b.clear(); p.ops.push_back(b); int n = (int)r.range(1, 6); for (int j = 0; j < n; j++) p.ops.push_back(Op("step", {0})); }
         Frame f = gen_request(r, d);
         if (p.cfg["poolfull"] && r.chance(1, 3)) { f = Frame(0, 8, {0x2B, 0x17, 0x10, 0, (uint8_t)r.pick<int>({0, 10, 100, 232}), (uint8_t)r.below(4), 0, 0}); }   // heartbeat producer time while no timer slot is free
+        if (hbc && r.chance(2, 3)) { int extra = (int)r.below(3); for (int q = 0; q <= extra; q++) { f = Frame(0, 8, {0x23, 0x16, 0x10, (uint8_t)r.range(1, 3), (uint8_t)r.pick<int>({0, 50, 100}), 0, (uint8_t)r.pick<int>({5, 6, 7}), 0}); if (q < extra) { p.ops.push_back(Op("req", {srv}, std::vector<uint8_t>(f.d, f.d + 8))); p.ops.push_back(Op("abort", {srv})); } } }   // a run of heartbeat consumer writes: accepted, refused (node monitored elsewhere), switched off
         p.ops.push_back(Op("req", {srv}, std::vector<uint8_t>(f.d, f.d + 8)));
         p.ops.push_back(Op("abort", {srv}));
         if (p.cfg["poolfull"] && r.chance(1, 2)) { Frame g2(0, 8, {0x40, 0x17, 0x10, 0, 0, 0, 0, 0}); p.ops.push_back(Op("req", {srv}, std::vector<uint8_t>(g2.d, g2.d + 8))); p.ops.push_back(Op("abort", {srv})); }
